@@ -62,6 +62,7 @@ type G struct {
 	panicking *panicState
 	schedChecked bool
 	parkOK   bool // blocked at an allowed parking point
+	idleWaiter bool
 	waitDesc string
 }
 
@@ -155,6 +156,28 @@ func (e *Engine) schedule() {
 					rs[0], rs[curIdx] = rs[curIdx], rs[0]
 					k := e.choose(len(rs))
 					g = rs[k]
+					if k != 0 {
+						e.preempt++
+					}
+				}
+			} else if e.opts.DelayBound {
+				// delay-bounded scheduling: the default successor is the next goroutine in
+				// round-robin order; every deviation costs one unit of the budget
+				start := 0
+				if e.cur != nil {
+					for i, r := range rs {
+						if r.id > e.cur.id {
+							start = i
+							break
+						}
+					}
+				}
+				rot := append(append([]*G{}, rs[start:]...), rs[:start]...)
+				if e.preempt >= e.opts.Preempt {
+					g = rot[0]
+				} else {
+					k := e.choose(len(rot))
+					g = rot[k]
 					if k != 0 {
 						e.preempt++
 					}
